@@ -285,6 +285,7 @@ pub fn run_case(case: &Case, stats: &mut Stats, cnt: &mut C04Counters) -> CaseRe
             continue;
         }
         env.reset();
+        let (la, lb) = operand_layouts(&w, op);
         simalloc::track(true);
         let rr = catch_unwind(AssertUnwindSafe(|| exec(&mut w, op, &mut env)));
         simalloc::track(false);
@@ -300,6 +301,7 @@ pub fn run_case(case: &Case, stats: &mut Stats, cnt: &mut C04Counters) -> CaseRe
         }
         stats.steps += 1;
         cnt.lockstep_steps += 1;
+        record_sig(stats, &w, op, &env, rp.as_ref().map(|p| p.class()).unwrap_or(""), la, lb);
         if env.skipped {
             // RBig skipped but Relaxed did not (cannot happen for canonical values): resynchronise below
             stats.skipped += 1;
